@@ -9,6 +9,7 @@ From Coq Require Import List NArith ZArith Bool.
 Import ListNotations.
 From Mos Require Import model.I64 Gen.BinOps model.Expr Gen.PassLoop model.PassLoop spec.PassLoopSpec Gen.C06Sites model.Sites
   proofs.PassLoopProofs proofs.SitesProofs model.Spans proofs.SpansProofs.
+From Mos Require proofs.EvalRange proofs.AsmSites model.SymTab model.Segment model.Asm proofs.AsmNoPanic.
 From Mos Require model.Nom model.Parser proofs.ParserTotalProofs proofs.ParserProgressProofs model.SourceMap model.Listing spec.ListingSpec proofs.StagesTotal.
 Open Scope Z_scope.
 
@@ -217,8 +218,14 @@ Proof. exact unchecked_branch_base_panics_iff. Qed.
 Print Assumptions C06_unchecked_branch_base_panics_iff.
 
 (* ================================================================== whole statements *)
-Theorem C06_stmt_align_total : forall en pc e, 0 <= pc <= 65536 -> evaluates_in_i64 en e -> stmt_align en pc e <> RPanic.
-Proof. exact stmt_align_total. Qed.
+(* every number the evaluator returns fits i64 (each operator is checked or cannot leave the range), given an environment
+   whose numbers do: the Rust type of a symbol's value and of the program counter *)
+Theorem C06_eval_in_i64 : forall en e, EvalRange.env_i64 en -> forall z, eval en e = EVal (Some (SNum z)) -> in_i64 z = true.
+Proof. exact EvalRange.eval_in_i64. Qed.
+Print Assumptions C06_eval_in_i64.
+(* `.align <any expression>`: no hypothesis about the expression *)
+Theorem C06_stmt_align_total : forall en pc e, EvalRange.env_i64 en -> 0 <= pc <= 65536 -> stmt_align en pc e <> RPanic.
+Proof. exact EvalRange.stmt_align_never_panics. Qed.
 Print Assumptions C06_stmt_align_total.
 Theorem C06_stmt_data_total : forall en pc size e, 0 <= pc <= 65536 -> 0 <= size <= 4 -> stmt_data en pc size e <> RPanic.
 Proof. exact stmt_data_total. Qed.
@@ -373,3 +380,50 @@ Example C06_example_guards :
   codegen_enter 63 = SOk 64%nat /\ parser_enter 64 = SDiag diag_nested_too_deep /\
   bank_padding 1099511627776 1 true = SDiag diag_bank_size_negative /\ bank_padding 16 1 true = SOk 15.
 Proof. repeat split; vm_compute; reflexivity. Qed.
+
+(* ================================================================== over the assembler model (C02's model/Asm.v) *)
+(* No statement of the modelled language panics.  Asm.emit_token has the outcomes Ret / Err (diagnostics) / Abort f,
+   f = FFuel (the model's recursion bound), FUnsupported (statements the model does not follow), FDiverge (unbounded
+   parent chain) or FPanic (the dev build panics).  From a context of the invariant AsmNoPanic.inv (accepted segment
+   options, program counters 0..$10000 with a non-negative target, the current segment exists, stored macro bodies
+   are tok_ok) and for a token of AsmNoPanic.tok_ok (data values of at most 8 bytes, `.text` of a literal shorter
+   than 2^32 bytes -- byte strings the model can build and a Vec cannot hold are excluded, see emit_panics_only_if),
+   the outcome is never Abort FPanic and the invariant holds afterwards. *)
+Theorem C06_emit_token_total : forall fuel t c, AsmNoPanic.tok_ok t -> AsmNoPanic.inv c ->
+  match Asm.emit_token fuel t c with
+  | Asm.Ret _ c' | Asm.Err _ c' => AsmNoPanic.inv c'
+  | Asm.Abort f => f <> Asm.FPanic
+  end.
+Proof. exact AsmNoPanic.emit_token_total. Qed.
+Print Assumptions C06_emit_token_total.
+(* the whole assembly: for every number of passes, every fuel, every start address 0..$FFFF and predefined constants *)
+Theorem C06_codegen_never_panics : forall passes fuel o toks, AsmNoPanic.start_ok o -> Forall AsmNoPanic.tok_ok toks ->
+  Asm.codegen passes fuel o toks <> Asm.Aborted Asm.FPanic.
+Proof. exact AsmNoPanic.codegen_np. Qed.
+Print Assumptions C06_codegen_never_panics.
+(* the one panic of `emit` from a context of the invariant: a byte string of 2^64 - 2^17 bytes or more *)
+Theorem C06_emit_panics_only_if : forall sp bytes c, AsmNoPanic.inv c -> Asm.emit sp bytes c = Asm.Abort Asm.FPanic ->
+  Encode.two64 - 131072 <= Z.of_nat (length bytes).
+Proof. exact AsmNoPanic.emit_panics_only_if. Qed.
+Print Assumptions C06_emit_panics_only_if.
+(* the arms of Asm.v decide by the site functions of Sites.v *)
+Theorem C06_asm_segment_option_is_address_check : forall v,
+  (if negb ((0 <=? v) && (v <=? 65535)) then None else Some (Encode.as_usize v)) = AsmSites.site_value (address_check v) /\
+  (negb ((0 <=? v) && (v <=? 65535)) = true <-> address_check v = SDiag diag_pc_out_of_range).
+Proof. exact AsmSites.segment_option_is_address_check. Qed.
+Print Assumptions C06_asm_segment_option_is_address_check.
+Theorem C06_asm_set_pc_is_pc_value_check : forall v,
+  (if negb ((0 <=? v) && (v <=? 65536)) then None else Some (Encode.as_usize v)) = AsmSites.site_value (pc_value_check v) /\
+  (negb ((0 <=? v) && (v <=? 65536)) = true <-> pc_value_check v = SDiag diag_pc_out_of_range).
+Proof. exact AsmSites.set_pc_is_pc_value_check. Qed.
+Print Assumptions C06_asm_set_pc_is_pc_value_check.
+Theorem C06_asm_align_arm_is_align_padding : forall pc align, 0 <= pc < two64 -> in_i64 align = true ->
+  align_padding pc align =
+  if align <=? 0 then SDiag diag_align_not_positive
+  else SOk (Z.min (align - Z.modulo (Encode.usize_as_i64 pc) align) CodegenConsts.align_padding_cap).
+Proof. exact AsmSites.align_arm_is_align_padding. Qed.
+Print Assumptions C06_asm_align_arm_is_align_padding.
+Theorem C06_asm_loop_arm_is_loop_enter : forall count,
+  (CodegenConsts.loop_iteration_limit <? count) = true <-> loop_enter 0 count = SDiag diag_loop_budget.
+Proof. exact AsmSites.loop_arm_is_loop_enter. Qed.
+Print Assumptions C06_asm_loop_arm_is_loop_enter.
